@@ -243,3 +243,56 @@ def corpus_timelines():
                 continue  # negative BPMs / stops are outside the domain
             out.append((name, tl, td))
     return out
+
+
+# ---------------------------------------------------------------------------
+# special timelines: size, distance and magnitude rather than interleaving
+# ---------------------------------------------------------------------------
+
+def special_timelines(thorough=False):
+    """
+    (label, timeline dict, probe beats).  Hand-built members of the stated domain that no small grid reaches:
+    many events at one instant, warps many measures long, events and queries thousands of beats out, BPMs and
+    lengths with many digits or at the ends of the allowed range, offsets of an hour.
+    """
+    F = Fraction
+    out = []
+
+    def probes(tl, extra=()):
+        pts = set(extra)
+        for k in ("bpms", "stops", "delays", "warps"):
+            for b, v in tl[k]:
+                pts.update([b, b - TICK, b + TICK])
+                if k == "warps":
+                    pts.update([b + v, b + v - TICK, b + v + TICK, b + v / 2])
+        pts.update([F(-1), F(0)])
+        return sorted(pts)
+
+    def add(label, bpms, stops=(), delays=(), warps=(), offset=F(0), extra=()):
+        tl = {"bpms": list(bpms), "stops": list(stops), "delays": list(delays), "warps": list(warps), "offset": F(offset)}
+        out.append((label, tl, probes(tl, extra)))
+
+    # 1. a crowd of events inside one warp: k BPM changes (alternating values) every half beat of a 4-beat warp,
+    #    alone, with a stop on the warp's first beat and a delay in its middle
+    for k in (3, 6, 7) + ((8,) if thorough else ()):
+        inner = [(F(4) + F(i + 1, 2), F(240) if i % 2 == 0 else F(60)) for i in range(k)]
+        wlen = F(max(4, (k + 2) // 2 + 1))
+        add(f"{k} BPM changes inside one warp", [(F(0), F(120))] + inner, warps=[(F(4), wlen)])
+        add(f"{k} BPM changes, a stop and a delay inside one warp", [(F(0), F(120))] + inner, stops=[(F(4), F(1, 2))], delays=[(F(5), F(1, 4))], warps=[(F(4), wlen)])
+    # 2. long warps (crossing several bar lines), one with events in the middle
+    for ln in (8, 20):
+        add(f"warp of {ln} beats", [(F(0), F(120))], warps=[(F(2), F(ln))], extra=[F(b) for b in range(0, ln + 6)])
+        add(f"warp of {ln} beats with a stop and a BPM change in the middle", [(F(0), F(120)), (F(2 + ln // 2), F(240))], stops=[(F(1 + ln // 2), F(1, 2))], warps=[(F(2), F(ln))],
+            extra=[F(b) for b in range(0, ln + 6)])
+    # 3. far out: queries and events thousands of beats away, BPMs with many digits / at the ends of the range
+    far = [F(133), F(486), F(667), F(757), F(1000), F(2334), F(8000), F(8000) + TICK, F(20000)]
+    add("single BPM 140, far queries", [(F(0), F(140))], extra=far)
+    add("BPM 133.33333333 from beat 4, far queries", [(F(0), F(120)), (F(4), F("133.33333333"))], extra=far)
+    add("BPM 1000.001, far queries", [(F(0), F("1000.001"))], extra=far)
+    add("BPM 128.010 (not a multiple of 1/48), far queries", [(F(0), F("128.010"))], extra=far)
+    add("BPM 181.685 with a stop at beat 700", [(F(0), F("181.685"))], stops=[(F(700), F("0.333"))], extra=far)
+    add("BPM 2000 then BPM 1", [(F(0), F(2000)), (F(1000), F(1))], stops=[(F(999), F("12.345678"))], extra=far)
+    add("offset of minus one hour at 175 BPM", [(F(0), F(175))], offset=F(-3600), extra=[F(1), F(2), F(100)] + far[:4])
+    add("offset of plus one hour, warp far out", [(F(0), F(150))], warps=[(F(4000), F(16))], offset=F(3600), extra=far + [F(4008), F(4016), F(4017)])
+    add("events far apart", [(F(0), F(120)), (F(5000), F(90))], stops=[(F(2500), F(3))], delays=[(F(7500), F("0.5"))], warps=[(F(6000), F(4))], extra=far)
+    return out
